@@ -461,6 +461,12 @@ def h_set(cname, n, pkind, invert):
         elif pkind == 'tuple1':
             plist = [K.int('p0')]
             arg = tuple(plist)
+        elif pkind == 'gen2':       # a one-shot iterable
+            plist = [K.int('p0'), K.int('p1')]
+            arg = (p_ for p_ in list(plist))
+        elif pkind == 'iter1':
+            plist = [K.int('p0')]
+            arg = iter(list(plist))
         else:  # range
             a = K.int('r_start', -n - 2, n + 2)
             b = K.int('r_stop', -n - 2, n + 2)
@@ -476,7 +482,8 @@ def h_set(cname, n, pkind, invert):
                 # a range may be applied position by position (prefix applied) or validated up front (nothing applied)
                 return K.check(r.raised(IndexError) and (same(raw(s), exp) or same(raw(s), x)), 'range containing an invalid position must raise IndexError',
                                exc=r.excname, got=raw(s), positions=plist)
-            return K.check(r.raised(IndexError) and same(raw(s), exp), 'invalid position must raise IndexError; only preceding valid positions applied',
+            # "may already have applied the valid positions that preceded the bad one": prefix applied, or nothing applied
+            return K.check(r.raised(IndexError) and (same(raw(s), exp) or same(raw(s), x)), 'invalid position must raise IndexError; at most the preceding valid positions applied',
                            exc=r.excname, got=raw(s), expected=exp)
         if not r.ok:
             return K.fail('set/invert raised for valid positions', exc=r.excname)
@@ -578,6 +585,16 @@ def h_imul(cname, n, kmax):
         if r.value is not True:
             return K.fail('*= did not return self')
         return _content(K, s, O.ref_repeat(x, K.conc(k)), '*= content')
+    return h
+
+
+def h_imul_float(cname, n):
+    """a multiplier that is not an integer is an invalid value: raise, content as it was"""
+    def h(K):
+        cls, x, pos, s = _obj(K, cname, n)
+        k = K.choice('k', [2.5, 4.5, 1.5, 0.5, 8.0, float('nan')])
+        r = call(lambda: s.__imul__(k))
+        return K.check((not r.ok) and _unchanged(K, s, x, pos), '*= with a non-integer count must raise and leave the content as it was', exc=r.excname, got=raw(s), k=k)
     return h
 
 
@@ -702,8 +719,12 @@ def conditions(tier):
                 if n == 4 or not q:
                     add(f'C03.{nm}-list[{c},n={n}]', h_set(c, n, 'list2', inv), f'all {n}-bit contents x every pair of int positions (list)', D_MISC, n=n, cls=c)
                     add(f'C03.{nm}-tuple[{c},n={n}]', h_set(c, n, 'tuple1', inv), f'all {n}-bit contents x every int position (1-tuple)', D_MISC, n=n, cls=c)
+                    add(f'C03.{nm}-generator[{c},n={n}]', h_set(c, n, 'gen2', inv), f'all {n}-bit contents x every pair of int positions (generator: one-shot iterable)', D_MISC, n=n, cls=c)
+                    add(f'C03.{nm}-iterator[{c},n={n}]', h_set(c, n, 'iter1', inv), f'all {n}-bit contents x every int position (iterator)', D_MISC, n=n, cls=c)
                     add(f'C03.{nm}-range[{c},n={n}]', h_set(c, n, 'range', inv), f'all {n}-bit contents x range(a,b,c), a,b in [-{n + 2},{n + 2}], c in [-3,3]', D_MISC, n=n, cls=c)
             add(f'C03.imul[{c},n={n}]', h_imul(c, n, 5 if q else 9), f'all {n}-bit contents x count in [-3,{5 if q else 9}]', D_MISC, n=n, cls=c)
+            if n in (1, 4):
+                add(f'C03.imul-float[{c},n={n}]', h_imul_float(c, n), f'all {n}-bit contents x non-integer counts (2.5, 4.5, 1.5, 0.5, 8.0, nan)', D_MISC, n=n, cls=c)
             add(f'C03.clear[{c},n={n}]', h_clear(c, n), f'all {n}-bit contents', D_MISC, n=n, cls=c)
         for n in ([0, 5] if q else [0, 1, 5, 9, 17]):
             for op in ('ilshift', 'irshift', 'iand', 'ior', 'ixor', 'imul', 'invert-all', 'set-all', 'clear'):
